@@ -131,8 +131,10 @@ def sync_table(ctx: Ctx, rule: str) -> None:
             return lambda v: v["HAS"]
         return None
 
+    OBJP = "_OBJ.object_typed_params(self.params)"
+
     def m_policy(t):
-        if "'unset_mode'" not in t:
+        if not t.startswith(OBJP + ".get('unset_mode', 'ri')[0] "):
             return None
         if t.endswith("[0] in ['f', 'r']") or t.endswith("[0] in ['r', 'f']"):
             return lambda v: v["P"] in ("f", "r")
@@ -163,8 +165,10 @@ def sync_table(ctx: Ctx, rule: str) -> None:
 
     matchers = [m_has, m_policy, m_pf, m_sel, m_inst,
                 N.M("NET", "_OBJ.key == 'nets'"), N.M("ISPERM", "_OBJ.is_permanent()")]
-    UNSET = ("pool_scope", "unset_location", "unset_mode", "unset_state")
-    GET = ("get_location", "get_state")
+    STATE = OBJP + ".get('set_state')"
+    LOC = "':' + " + OBJP + "['shared_pool']"
+    UNSET = ("pool_scope", "unset_location=" + LOC, "unset_mode=" + OBJP + ".get('unset_mode', 'ri')", "unset_state=" + STATE)
+    GET = ("get_location=" + LOC, "get_state=" + STATE)
 
     def reference(v):
         if not v["HAS"]:
@@ -210,6 +214,8 @@ def sync_table(ctx: Ctx, rule: str) -> None:
                         k.value if isinstance(k, ast.Constant) else "?")
                     if lead == "pool_scope" and not (isinstance(value, ast.Constant) and value.value == "own"):
                         lead = "pool_scope!=own"
+                    elif lead != "pool_scope":
+                        lead = f"{lead}={view.canon_text(value, i)}"
                     keys.add(lead)
             else:
                 keys.add("?")
@@ -286,6 +292,7 @@ MUTANTS = [
     ("keep-own-unset-states", NODE, "            if key.startswith(\"get_state\") or key.startswith(\"unset_state\"):\n                del node_params[key]", "            if key.startswith(\"get_state\"):\n                del node_params[key]", "3c"),
     ("direct-unset-in-graph", G, "        test_node.started_worker = worker\n        if test_node.should_clean(worker):",
      "        test_node.started_worker = worker\n        if params.get(\"eager_unset\"):\n            ss.unset_states(test_node.params, None)\n        if test_node.should_clean(worker):", "2d"),
+    ("image-policy-overrides-vm", NODE, "            unset_policy = object_params.get(\"unset_mode\", \"ri\")", "            unset_policy = object_params.get(\"unset_mode_images\", object_params.get(\"unset_mode\", \"ri\"))", "3"),
     ("P-clean-flag", G, "        if test_node.should_clean(worker):\n\n            if len(test_node.get_stateful_objects()) > 0:",
      "        clean = test_node.should_clean(worker)\n        if clean:\n\n            if len(test_node.get_stateful_objects()) > 0:", None),
 ]
